@@ -323,11 +323,117 @@ static Result check_surface(const J &c)
   return r;
 }
 
+// ---------------------------------------------------------------- models with their own point-wise depth range
+// A model's own "min depth" / "max depth" may be a surface too; before the local surface is evaluated the model compares the depth with
+// the surface's extreme values. Oracle: the surfaces are tilted planes written as one value per polygon corner (any triangulation
+// reproduces them), so whether a model is active at a point is known in closed form; an active uniform model gives its value, an
+// inactive one leaves what was there (background temperature, zero composition / velocity / grains).
+static J gen_model_surface(Chooser &ch)
+{
+  g::Opt o;
+  g::Frame fr = g::gen_frame(ch, o);
+  J root = J::obj();
+  g::frame_to_json(fr, root);
+  g::Opt none; none.grains = false; none.velocity = false; none.custom_tags = false;
+  g::FM m;
+  const std::string type = ch.pick<std::string>({"continental plate", "oceanic plate", "mantle layer"});
+  J feat;
+  for (int attempt = 0; attempt < 20; ++attempt)
+    {
+      feat = g::area_feature(ch, fr, none, type, g::gen_centre(ch, fr), 0, m);
+      bool zero = false;
+      for (auto &p : m.coords) if (p[0] == 0 || p[1] == 0) zero = true; // listed finding C11: a value at a corner with a zero coordinate
+      if (!zero) break;
+    }
+  feat.erase("temperature models"); feat.erase("composition models");
+  feat["min depth"] = 0.0; feat["max depth"] = 400e3;
+  double ext = 0;
+  for (auto &p : m.coords) ext = std::max(ext, std::max(std::fabs(p[0] - m.kernel[0]), std::fabs(p[1] - m.kernel[1])));
+  J c = J::obj();
+  J planes = J::arr();
+  auto surface = [&](double base, double amp, J &plane) {
+    const double a = ch.real(-1, 1) * amp / (2 * ext), b = ch.real(-1, 1) * amp / (2 * ext);
+    plane = J::arr({J(base), J(a), J(b)});
+    J sf = J::arr();
+    sf.push(J::arr({J(base)}));
+    for (auto &p : m.coords) sf.push(J::arr({J(base + a * (p[0] - m.kernel[0]) + b * (p[1] - m.kernel[1])), J::arr({jp(p[0], p[1])})}));
+    return sf;
+  };
+  const char *kinds[4] = {"temperature models", "composition models", "velocity models", "grains models"};
+  for (int k = 0; k < 4; ++k)
+    {
+      J mo = J::obj();
+      J pmin = J(), pmax = J();
+      if (k == 0) { mo["model"] = "uniform"; mo["temperature"] = ch.lattice(300, 1200, 50); }
+      else if (k == 1) { mo["model"] = "uniform"; mo["compositions"] = J::arr({J(0)}); mo["fractions"] = J::arr({J(ch.lattice(0.125, 1, 0.125))}); }
+      else if (k == 2) { mo["model"] = "uniform raw"; mo["velocity"] = J::arr({J(ch.lattice(0.5, 3, 0.5)), J(ch.lattice(-3, -0.5, 0.5)), J(ch.lattice(0.5, 2, 0.5))}); }
+      else { mo["model"] = "uniform"; mo["compositions"] = J::arr({J(0)}); mo["Euler angles z-x-z"] = J::arr({jp(30, 45, 60)}); mo["grain sizes"] = J::arr({J(0.5)}); }
+      // each of the two limits: absent, a number, or a tilted plane
+      const int kmin = static_cast<int>(ch.range(0, 2)), kmax = static_cast<int>(ch.range(1, 2)) + (ch.chance(60) ? 1 : 0);
+      if (kmin == 1) { const double v = ch.lattice(40e3, 120e3, 10e3); mo["min depth"] = v; pmin = J::arr({J(v), J(0.0), J(0.0)}); }
+      else if (kmin == 2) mo["min depth"] = surface(ch.lattice(60e3, 120e3, 10e3), 60e3, pmin);
+      if (kmax == 1) { const double v = ch.lattice(200e3, 330e3, 10e3); mo["max depth"] = v; pmax = J::arr({J(v), J(0.0), J(0.0)}); }
+      else if (kmax >= 2) mo["max depth"] = surface(ch.lattice(220e3, 320e3, 10e3), 100e3, pmax);
+      feat[kinds[k]] = J::arr({mo});
+      planes.push(J::arr({pmin, pmax}));
+    }
+  root["features"] = J::arr({feat});
+  g::GW w; w.fr = fr; w.root = root; m.dmin = 0; m.dmax = 400e3; w.feats.push_back(m);
+  c["world"] = root.dump();
+  c["planes"] = planes;
+  c["cx"] = m.kernel[0]; c["cy"] = m.kernel[1];
+  c["queries"] = g::gen_queries(ch, w, static_cast<int>(ch.range(8, 30)), 100);
+  return c;
+}
+
+static Result check_model_surface(const J &c)
+{
+  Result r;
+  const J root = J::parse(c.at("world").str());
+  auto W = make_world(c.at("world").str());
+  const J &feat = root.at("features")[0];
+  const PropList pl = {{{1, 0, 0}}, {{2, 0, 0}}, {{5, 0, 0}}, {{3, 0, 1}}, {{4, 0, 0}}};
+  r.classes.push_back(feat.at("model").str());
+  for (const auto &q : c.at("queries").a)
+    {
+      const double depth = q.at("depth").num();
+      const std::vector<double> out = W->properties(p3(q.at("p")), depth, pl);
+      if (out.back() == -1) continue;
+      const double dx = q.at("nat")[0].num() - c.at("cx").num(), dy = q.at("nat")[1].num() - c.at("cy").num();
+      bool near = false;
+      std::array<bool, 4> active{};
+      for (size_t k = 0; k < 4; ++k)
+        {
+          const J &pp = c.at("planes")[k];
+          const double zmin = pp[0].is_arr() ? pp[0][0].num() + pp[0][1].num() * dx + pp[0][2].num() * dy : 0.0;
+          const double zmax = pp[1].is_arr() ? pp[1][0].num() + pp[1][1].num() * dx + pp[1][2].num() * dy : std::numeric_limits<double>::max();
+          active[k] = depth >= zmin && depth <= zmax;
+          if (std::fabs(depth - zmin) < 1e-3 * (1 + depth) || std::fabs(depth - zmax) < 1e-3 * (1 + depth)) near = true;
+          if (pp[0].is_arr() && pp[0][1].num() != 0) r.classes.push_back("tilted min depth");
+          if (pp[1].is_arr() && (pp[1][1].num() != 0 || pp[1][2].num() != 0)) r.classes.push_back("tilted max depth");
+        }
+      if (near) continue;
+      r.inner++; r.inner_nt++; r.nontrivial = true;
+      // temperature: the model's value when active, anything else (the background) when not
+      const double Tm = feat.at("temperature models")[0].at("temperature").num();
+      if (active[0] && out[0] != Tm) return Result::fail("model-surface-temperature", "the temperature model is active at depth " + fmt(depth) + " (its own depth range there) but the temperature is " + fmt(out[0]) + " instead of " + fmt(Tm) + "; query " + q.dump());
+      if (!active[0] && out[0] == Tm) return Result::fail("model-surface-temperature", "the temperature model is not active at depth " + fmt(depth) + " but the temperature is its value " + fmt(Tm) + "; query " + q.dump());
+      const double fr0 = feat.at("composition models")[0].at("fractions")[0].num();
+      if (out[1] != (active[1] ? fr0 : 0.0)) return Result::fail("model-surface-composition", std::string("the composition model is ") + (active[1] ? "active" : "not active") + " at depth " + fmt(depth) + " but composition 0 is " + fmt(out[1]) + "; query " + q.dump());
+      const J &vv = feat.at("velocity models")[0].at("velocity");
+      for (size_t k = 0; k < 3; ++k)
+        if (out[2 + k] != (active[2] ? vv[k].num() : 0.0)) return Result::fail("model-surface-velocity", std::string("the velocity model is ") + (active[2] ? "active" : "not active") + " at depth " + fmt(depth) + " but velocity component " + std::to_string(k) + " is " + fmt(out[2 + k]) + "; query " + q.dump());
+      if ((out[5] != 0) != active[3]) return Result::fail("model-surface-grains", std::string("the grains model is ") + (active[3] ? "active" : "not active") + " at depth " + fmt(depth) + " but the grain size is " + fmt(out[5]) + "; query " + q.dump());
+    }
+  return r;
+}
+
 int main(int argc, char **argv)
 {
   return run_main("C07", argc, argv,
   {
     {"line_culling", "1..2 slabs/faults with curved trenches, any min depth, both coordinate systems (trenches moved to |lat| up to 78 deg, next to +-180), 20..80 points biased to the rim of the region a member can occupy; oracle: the same file built with Verif::disable_culling (infinite bounding box, infinite length cut-off) must answer bit-identically. Non-trivial: the un-culled world puts the point inside", 60, gen_culling, check_culling, 100, true, true},
     {"surface_search", "Objects::Surface built from 3..60 generated nodes (random or lattice, spherical sets written beyond +-pi), queries inside the hull by construction with longitudes normalised as callers do; oracle: brute-force scan of the object's own triangles with an independent long-double barycentric test", 300, gen_surface, check_surface},
+    {"model_depth_surfaces", "one area feature (all three types, both coordinate systems) whose uniform temperature / composition / velocity / grains models each have their own min and max depth: absent, a number, or a tilted plane given as one value per polygon corner; oracle: closed-form activity of every model at the point, active model gives its value, inactive one leaves the background / zero. Non-trivial: every point away from the planes", 120, gen_model_surface, check_model_surface},
   });
 }
